@@ -34,6 +34,9 @@ def cases(tier, seed):
         if len(c["names"]) <= 5:
             out.append({"mode": "union", "a": c, "b": gen.draw(rng, cl, 5), "cls": "union", "rs": rng.randrange(1 << 30)})
     for _ in range(ni):
+        if rng.random() < 0.3:
+            out.append({"mode": "inputs", "net": gen.cond_maa(rng, 7), "cls": "cond-maa", "rs": rng.randrange(1 << 30)})
+            continue
         base = gen.draw(rng, [("gadget", 4), ("rand", 3), ("overlap-maa", 0.3)], 7)
         k = rng.randint(1, 3)
         out.append({"mode": "inputs", "net": gen.with_inputs(rng, base, k), "cls": "inputs", "rs": rng.randrange(1 << 30)})
